@@ -9,6 +9,8 @@ pub enum Event {
     ListDir,
     Create(u64),
     SetLen(u64, u64),
+    /// `set_len(len)` applied only if the file was shorter (repair of a file left short by a crash)
+    EnsureLen(u64, u64),
     OpenFile(u64),
     ReadBlock(u64),
     Seek(u64, u64),
